@@ -86,6 +86,7 @@ def run(tier, seed):
     ares, ainp = Q.replay(PROP, attacks, "attacks")
     Q.collect(PROP, ares, verdict, ainp, foreign)
 
+    selftest = Q.binding_selftest(PROP, behs)
     rc = verdict.report()
     div = res["counters"].get("divergences", 0)
     if div:
@@ -104,7 +105,7 @@ def run(tier, seed):
         "detail": {"configs": configs, "continuations_replayed": res["counters"].get("continuations", 0),
                    "continuations_decided": res["counters"].get("continuations_decided", 0),
                    "search": sres["counters"], "attack_traces": [b["id"] for b in attacks],
-                   "prefixes": [b["id"] for b in prefixes], "stale_attacks": stale, "divergences": div,
+                   "prefixes": [b["id"] for b in prefixes], "stale_attacks": stale, "divergences": div, "binding_selftest": selftest,
                    "divergence_samples": res["divergences"][:5], "foreign_signatures_seen": foreign},
     }
     vlib.write_evidence(PROP, tier, seed, "model_checking", cov, time.time() - t0, [
